@@ -14,14 +14,13 @@ def pi8 (s : Stack) : Outgoing × List (Dest × (Bool × Nat)) := (s.outgoing, s
 @[simp] theorem pi8_with_tm (s : Stack) (x : Timings) : pi8 { s with tm := x } = pi8 s := rfl
 @[simp] theorem pi8_with_loop (s : Stack) (x : Loop Cb) : pi8 { s with loop := x } = pi8 s := rfl
 @[simp] theorem pi8_with_outs (s : Stack) (x : List (Nat × Out)) : pi8 { s with outs := x } = pi8 s := rfl
-@[simp] theorem pi8_with_tasks (s : Stack) (x : List (Nat × TaskSt)) : pi8 { s with tasks := x } = pi8 s := rfl
-@[simp] theorem pi8_with_nextTid (s : Stack) (x : Nat) : pi8 { s with nextTid := x } = pi8 s := rfl
+@[simp] theorem pi8_with_tasks (s : Stack) (x : List (Tid × TaskSt)) : pi8 { s with tasks := x } = pi8 s := rfl
 @[simp] theorem pi8_with_storeLog (s : Stack) (x : List (Bool × SvcKey × Addr)) : pi8 { s with storeLog := x } = pi8 s := rfl
 @[simp] theorem pi8_with_instances (s : Stack) (x : List Instance) : pi8 { s with instances := x } = pi8 s := rfl
 @[simp] theorem pi8_with_collectors (s : Stack) (x : List Collector) : pi8 { s with collectors := x } = pi8 s := rfl
 @[simp] theorem pi8_with_nextCid (s : Stack) (x : Nat) : pi8 { s with nextCid := x } = pi8 s := rfl
 @[simp] theorem pi8_with_flushLog (s : Stack) (x : List (Dest × List SDEntry)) : pi8 { s with flushLog := x } = pi8 s := rfl
-@[simp] theorem pi8_with_tasks_nextTid (s : Stack) (x : List (Nat × TaskSt)) (y : Nat) : pi8 { s with tasks := x, nextTid := y } = pi8 s := rfl
+@[simp] theorem pi8_with_subLog (s : Stack) (x : List (Addr × Nat × List Eventgroup)) : pi8 { s with subLog := x } = pi8 s := rfl
 @[simp] theorem pi8_with_coll_nextCid (s : Stack) (x : List Collector) (y : Nat) : pi8 { s with collectors := x, nextCid := y } = pi8 s := rfl
 
 @[simp] theorem pi8_with_found (s : Stack) (x : TStore SvcKey) : pi8 { s with found := x } = pi8 s := rfl
@@ -46,18 +45,18 @@ def pi8 (s : Stack) : Outgoing × List (Dest × (Bool × Nat)) := (s.outgoing, s
 @[simp] theorem pi8_armTtl (s : Stack) (ttl : Nat) (cb : Cb) : pi8 (s.armTtl ttl cb).1 = pi8 s := by
   unfold armTtl; split <;> rfl
 @[simp] theorem pi8_setInst (s : Stack) (i : Nat) (x : Instance) : pi8 (s.setInst i x) = pi8 s := rfl
-@[simp] theorem pi8_setTask (s : Stack) (i : Nat) (x : TaskSt) : pi8 (s.setTask i x) = pi8 s := rfl
+@[simp] theorem pi8_setTask (s : Stack) (i : Tid) (x : TaskSt) : pi8 (s.setTask i x) = pi8 s := rfl
 
 @[simp] theorem pi8_newCollector (s : Stack) (d : Dest) : pi8 (s.newCollector d).1 = pi8 s := rfl
 @[simp] theorem pi8_appendCollector (s : Stack) (c : Nat) (e : SDEntry) : pi8 (s.appendCollector c e) = pi8 s := rfl
 
 @[simp] theorem pi8_createTask (s : Stack) (k : TaskKind) : pi8 (s.createTask k).1 = pi8 s := rfl
-@[simp] theorem pi8_cancelTask (s : Stack) (t : Nat) : pi8 (s.cancelTask t) = pi8 s := by
+@[simp] theorem pi8_cancelTask (s : Stack) (t : Tid) : pi8 (s.cancelTask t) = pi8 s := by
   unfold cancelTask; split; rfl; split; rfl; split <;> simp
-@[simp] theorem pi8_sleepFor (s : Stack) (tid : Nat) (t : TaskSt) (d : Nat) (pc : Pc) : pi8 (s.sleepFor tid t d pc) = pi8 s := by
+@[simp] theorem pi8_sleepFor (s : Stack) (tid : Tid) (t : TaskSt) (d : Nat) (pc : Pc) : pi8 (s.sleepFor tid t d pc) = pi8 s := by
   unfold sleepFor; split <;> simp
-@[simp] theorem pi8_finish (s : Stack) (tid : Nat) (t : TaskSt) : pi8 (s.finish tid t) = pi8 s := rfl
-@[simp] theorem pi8_sleepDone (s : Stack) (tid : Nat) : pi8 (s.sleepDone tid) = pi8 s := by
+@[simp] theorem pi8_finish (s : Stack) (tid : Tid) (t : TaskSt) : pi8 (s.finish tid t) = pi8 s := rfl
+@[simp] theorem pi8_sleepDone (s : Stack) (tid : Tid) : pi8 (s.sleepDone tid) = pi8 s := by
   unfold sleepDone; split; rfl; split <;> simp
 
 @[simp] theorem pi8_instStart (s : Stack) (i : Nat) : pi8 (s.instStart i) = pi8 s := by
